@@ -69,6 +69,26 @@ class Dim:
                         raise ZeroDivisionError(f"{s} not divisible by {o}")
                 r[tuple(kk)] = v / cm
             return Dim(r)
+        # exact division by a general polynomial (graded-lex long division); raises when the remainder is not zero
+        def lead(t):
+            return max(t, key=lambda k: (len(k), k))
+        ko = lead(o.t)
+        co = o.t[ko]
+        rem = Dim(s.t)
+        quo = {}
+        for _ in range(10000):
+            if not rem.t:
+                return Dim(quo)
+            kr = lead(rem.t)
+            kk = list(kr)
+            for sy in ko:
+                if sy in kk:
+                    kk.remove(sy)
+                else:
+                    raise ZeroDivisionError(f"{s} not divisible by {o}")
+            m = Dim({tuple(kk): rem.t[kr] / co})
+            quo[tuple(kk)] = quo.get(tuple(kk), 0) + rem.t[kr] / co
+            rem = rem - m * o
         raise ZeroDivisionError(f"{s} / {o}")
 
     def __pow__(s, n):
